@@ -105,8 +105,12 @@ def explore(chk, rng, n_tables, reqs_per_table, tag):
     import bromelia.exceptions as X
     from bromelia.base import DiameterAnswer, DiameterRequest
     from bromelia.avps import SessionIdAVP, ResultCodeAVP, OriginHostAVP, OriginRealmAVP
+    import threading
     lines, meta = [], []
+    blocked = [0]
     for ti in range(n_tables):
+        if blocked[0] >= 3:
+            break
         n_apps = rng.choice([1, 2, 3, 4])
         app, workers = make_app(n_apps, os.path.join(core.WORK, "c13_%d.yaml" % os.getpid()))
         ran = []
@@ -156,13 +160,26 @@ def explore(chk, rng, n_tables, reqs_per_table, tag):
             del ran[:]
             for w in workers.values():
                 del w.sent[:]
-            try:
-                app.callback_route(req)
-                exc = None
-            except BaseException as e:
-                if isinstance(e, (KeyboardInterrupt, SystemExit)):
-                    raise
-                exc = ("lib" if type(e).__module__ == X.__name__ else "std") + ":" + type(e).__name__
+            # the route runs in a thread of its own (as in create_message_thread); one that does not come back within
+            # 5 s is blocked (e.g. waiting for an answer to something that is not a request of the application)
+            box = {}
+
+            def call(req=req, box=box):
+                try:
+                    app.callback_route(req)
+                    box["exc"] = None
+                except BaseException as e:
+                    box["exc"] = ("lib" if type(e).__module__ == X.__name__ else "std") + ":" + type(e).__name__
+            if blocked[0] >= 3:
+                break
+            th = threading.Thread(target=call, daemon=True)
+            th.start()
+            th.join(5.0)
+            if th.is_alive():
+                blocked[0] += 1
+                exc = "blocked"
+            else:
+                exc = box.get("exc")
             sent = [(w.name, m) for w in dict.fromkeys(workers.values()) for m in w.sent]
             lines.append("route %d %s %d %d" % (len(regs), " ".join("%d %d %d" % r for r in regs), a, c))
             meta.append((list(regs), dict(outcomes), (a, c), with_sid, list(ran), sent, exc, req, sid, oh, orr,
@@ -178,6 +195,10 @@ def explore(chk, rng, n_tables, reqs_per_table, tag):
             chk.corr_break("dispatch", inp, impl_h, model_h)
         # specification: the handler registered LAST for exactly this pair, and no other
         want = [h for (ra, rc, h) in regs if (ra, rc) == (a, c)][-1]
+        if exc == "blocked":
+            chk.violation("the request thread never comes back from the route (no single answer is handed over and the thread is stuck)", inp,
+                          "exactly one answer, route returns", {"sent": len(sent), "handler_outcome": kind})
+            continue
         if ran != [want]:
             chk.violation("request not dispatched to exactly the handler registered for its (Application-ID, command code)", inp, [want], ran)
         if not with_sid and kind != "answer":
